@@ -2,3 +2,5 @@
 From Verif Require Import Base.Prelude Misc.Level Lts.Sampler.
 Definition c13_run (c : gate * list (Z * Z)) : list bool := fst (run_gate (fst c) (snd c)).
 Definition c13_eqb : list bool -> list bool -> bool := list_eqb Bool.eqb.
+(* Sample called on a sampler tree itself (no logger, no gate): the all-levels sweep *)
+Definition c13s_run (c : sampler * list (Z * Z)) : list bool := fst (run_sampler (fst c) (snd c)).
